@@ -139,4 +139,4 @@ def parts(tier):
     classes = ["construct", "view", "write", "lifetime", "derive", "rename"]
     extra = ["vec_tuple"] * 14 + ["slice", "slice", "slice", "copy", "mask", "sort", "math", "set_slice", "set_mask", "attr_assign", "attr_assign", "drop_tuple", "drop_tuple", "set_int", "set_int", "set_slice", "drop", "churn", "gc", "rshift", "vec_of_vecs", "attr_assign"]
     return [Part("histories", run, strategy=lambda t: W.program(max_steps=mx, classes=classes, always=("construct", "write", "lifetime"), extra_ops=extra),
-                 examples=(3000, 100000), shards=(12, 16), floors={"has_shared_pair": 0.12, "has_table_constructor": 0.5})]
+                 examples=(3000, 40000), shards=(12, 16), floors={"has_shared_pair": 0.12, "has_table_constructor": 0.5})]
